@@ -26,6 +26,8 @@ struct AppSt {
     completed: bool,
     verdict_done: bool,
     probes: u64,
+    /// End (ticks) of the latest probe on the wire.
+    last_probe_end: Option<u64>,
 }
 
 pub struct ScanMonitor {
@@ -60,6 +62,7 @@ impl ScanMonitor {
                     completed: false,
                     verdict_done: false,
                     probes: 0,
+                    last_probe_end: None,
                 });
             }
         }
@@ -138,6 +141,7 @@ impl Monitor for ScanMonitor {
             }
         }
         a.last_da = Some(da);
+        a.last_probe_end = Some(tx.end());
         a.completed = false;
     }
 
@@ -204,6 +208,26 @@ impl Monitor for ScanMonitor {
                         }
                     }
                     AppCall::Timeout { app: ca, addr } if *ca == app => {
+                        // "one event per actual change observed": an address is only given up when
+                        // its probe really went unanswered for a slot time
+                        if let Some(end) = self.apps[ai].last_probe_end {
+                            let slot = w.slot_ticks(p.st);
+                            if p.t + w.us(2) + super::tol_ticks(w, p.st, 0, slot) < end + slot {
+                                w.violate(
+                                    self.prop,
+                                    "scan.events",
+                                    "given-up-before-the-slot-time-was-over",
+                                    Some(master),
+                                    format!(
+                                        "{:?} of #{master} is told that #{addr} did not answer {} bit times after the end of the probe; the slot time is {} bit times",
+                                        kind,
+                                        p.t.saturating_sub(end) / crate::bus::BIT,
+                                        w.stations[p.st].cfg.slot_bits
+                                    ),
+                                );
+                                return;
+                            }
+                        }
                         let a = usize::from(*addr & 127);
                         if self.apps[ai].known[a] {
                             self.apps[ai].known[a] = false;
